@@ -466,4 +466,56 @@ theorem run_made [CommRing R] (cfg : Cfg R) {m : ℕ} (sols : List (Sol R))
       exact ih (fun c' hc' => hcs c' (List.mem_cons_of_mem _ hc'))
         (step_made cfg sols (hcs c List.mem_cons_self) hi hstep) hr
 
+/-! ### the retry loop: what a failed attempt leaves behind -/
+
+theorem getN_val [Zero R] {m : ℕ} (M : Matrix (Fin m) (Fin m) R) (a b : Fin m) :
+    getN M a.val b.val = M a b := by
+  simp [getN, a.isLt, b.isLt]
+
+theorem zeroedSmall_refl [Zero R] (cfg : Cfg R) {m : ℕ} (U : Matrix (Fin m) (Fin m) R) :
+    ZeroedSmall cfg U U := fun _ _ => Or.inl rfl
+
+theorem zeroedSmall_trans [Zero R] (cfg : Cfg R) {m : ℕ} {U V W : Matrix (Fin m) (Fin m) R}
+    (h1 : ZeroedSmall cfg U V) (h2 : ZeroedSmall cfg V W) : ZeroedSmall cfg U W := by
+  intro a b
+  rcases h2 a b with e | ⟨e0, es⟩
+  · rw [e]; exact h1 a b
+  · rcases h1 a b with e' | ⟨_, es'⟩
+    · exact Or.inr ⟨e0, by rw [← e']; exact es⟩
+    · exact Or.inr ⟨e0, es'⟩
+
+theorem leadingSkipsV_zeroedSmall [Zero R] (cfg : Cfg R) {m : ℕ} (cs : List (ℕ × ℕ)) :
+    ∀ M : MatV R m m, ZeroedSmall cfg M.toMatrix (leadingSkipsV cfg M cs).toMatrix := by
+  induction cs with
+  | nil => intro M; exact zeroedSmall_refl cfg _
+  | cons c cs ih =>
+    intro M
+    unfold leadingSkipsV
+    split
+    · rename_i hc
+      refine zeroedSmall_trans cfg ?_ (ih _)
+      rw [MatV.toMatrix_ofMatrix]
+      intro a b
+      by_cases hab : a.val = c.2 ∧ b.val = c.1
+      · refine Or.inr ⟨by simp [zeroAt, hab], ?_⟩
+        have hs : cfg.small (getN M.toMatrix c.2 c.1) = true := by
+          simp only [Bool.and_eq_true] at hc
+          exact hc.1
+        rw [← hab.1, ← hab.2, getN_val] at hs
+        exact hs
+      · exact Or.inl (by simp [zeroAt, hab])
+    · exact zeroedSmall_refl cfg _
+
+theorem inPlace_zeroedSmall' [Zero R] (cfg : Cfg R) {m : ℕ} (U : Matrix (Fin m) (Fin m) R) :
+    ZeroedSmall cfg U (inPlace cfg U) := by
+  have := leadingSkipsV_zeroedSmall cfg (cells m) (MatV.ofMatrix U)
+  rwa [MatV.toMatrix_ofMatrix] at this
+
+/-- without `ignore_identity_block` nothing is ever written into the shared array -/
+theorem leadingSkipsV_ignore_off [Zero R] (cfg : Cfg R) {m : ℕ} (h : cfg.ignoreId = false)
+    (cs : List (ℕ × ℕ)) (M : MatV R m m) : leadingSkipsV cfg M cs = M := by
+  cases cs with
+  | nil => rfl
+  | cons c cs => simp [leadingSkipsV, h]
+
 end PM.C12
